@@ -1784,7 +1784,47 @@ func (x *Evaluator) tmplOf(v Val, src ssa.Value) Tmpl {
 	return asTmpl(v)
 }
 
+// byteOfString: v is s[i] of a string s (a byte that is compared without being converted).
+func byteOfString(v ssa.Value) (charOf, bool) {
+	switch ix := v.(type) {
+	case *ssa.Lookup:
+		if isString(ix.X.Type()) {
+			return charOf{Str: ix.X, Index: ix.Index}, true
+		}
+	case *ssa.Index:
+		if isString(ix.X.Type()) {
+			return charOf{Str: ix.X, Index: ix.Index}, true
+		}
+	}
+	return charOf{}, false
+}
+
+func byteConst(v ssa.Value) (Val, bool) {
+	k, ok := v.(*ssa.Const)
+	if !ok || k.Value == nil || k.Value.Kind() != constant.Int {
+		return nil, false
+	}
+	n, exact := constant.Int64Val(k.Value)
+	if !exact || n < 0 || n > 127 {
+		return nil, false
+	}
+	return strV(Tmpl{Lit{string(rune(n))}}), true
+}
+
 func (x *Evaluator) evalCompare(v *ssa.BinOp, e *env, c *evalCtx) Val {
+	// s[i] <op> 'c' (bytes compared as such)
+	if v.Op == token.EQL || v.Op == token.NEQ {
+		if ch, ok := byteOfString(v.X); ok {
+			if o, ok := byteConst(v.Y); ok {
+				return x.charCompare(ch, o, v.Op, e, c)
+			}
+		}
+		if ch, ok := byteOfString(v.Y); ok {
+			if o, ok := byteConst(v.X); ok {
+				return x.charCompare(ch, o, v.Op, e, c)
+			}
+		}
+	}
 	l := x.evalC(v.X, e, c)
 	r := x.evalC(v.Y, e, c)
 	// string(s[i]) <op> "c"
